@@ -363,7 +363,9 @@ def type_expr(T: dict) -> str:
             parts.insert(pos - 1, f"Annotated[{type_expr(t)}, Unsupported]")
         return "Union[" + ", ".join(parts) + "]"
     if k == "lit":
-        return "Literal[" + ", ".join(lit_expr(v) for v in T["vals"]) + "]"
+        mem = T.get("mem") or []
+        return "Literal[" + ", ".join(f"{mem[i]['cls']}.{mem[i]['m']}" if i < len(mem) and mem[i].get("k") == "enum" else lit_expr(v)
+                                      for i, v in enumerate(T["vals"])) + "]"
     if k == "enum":
         return T["cls"]
     if k == "newtype":
